@@ -140,8 +140,12 @@ def _check_harness(ctx):
 
 
 def run(ctx):
-    if os.path.exists(os.path.join(os.path.dirname(__file__), '..', '..', 'spec', 'MC_C12.cfg')):
-        ctx.model_must_hold('MC_C12', 'MC_C12.cfg', timeout=1500)
+    ctx.model_must_hold('MC_C12', 'MC_C12.cfg', timeout=1500, label='uniform refinement transcriptions satisfy the clauses')
+    old = ctx.tlc_model('MC_C12', 'MC_C12_old.cfg', timeout=900,
+                        label='regression model: generic sub-domain propagation on segments (before fix b43803f)')
+    ctx.notes['old_generic_propagation_on_segments_refuted_by_tlc'] = bool(old['violated'])
+    if not old['violated']:
+        raise MachineryError('MC_C12 does not refute the pre-repair segment propagation')
     recs = generate(ctx.tier, ctx.seed)
     scs = [scenario(f'C12-{k}', r) for k, r in enumerate(recs)]
     add_event_tags(scs)
